@@ -96,12 +96,42 @@ def run_one(meta, pid=None):
         shutil.rmtree(scratch, ignore_errors=True)
 
 
-def run(pid):
+NEUTRAL_DIR = os.path.join(core.VERIF, "neutral")
+
+
+def neutral_patches(pid):
+    """behaviour-preserving refactorings written by independent sub-agents (neutral/<id>/patch.diff): those made for this
+    property, and those listed for it in neutral/CROSS.txt because one of its rules once raised a false alarm on them"""
     out = []
-    known, _ = core.load_known()
-    for p in sorted(glob.glob(os.path.join(MUT_DIR, pid, "*.patch"))):
-        out.append(run_one(parse_mutant(p), pid))
+    cross = set()
+    cp = os.path.join(NEUTRAL_DIR, "CROSS.txt")
+    if os.path.exists(cp):
+        for line in open(cp):
+            f = line.split("#")[0].split()
+            if len(f) >= 2 and pid in f[1:]:
+                cross.add(f[0])
+    for d in sorted(glob.glob(os.path.join(NEUTRAL_DIR, "*"))):
+        nid = os.path.basename(d)
+        p = os.path.join(d, "patch.diff")
+        if os.path.exists(p) and (nid.startswith(pid + "-") or nid in cross):
+            out.append({"expect": [], "path": p, "name": "neutral-agent-" + nid, "property": pid, "neutral": True,
+                        "what": "behaviour-preserving refactoring by an independent sub-agent"})
     return out
+
+
+def _run_job(job):
+    meta, pid = job
+    return run_one(meta, pid)
+
+
+def run(pid, workers=6):
+    import concurrent.futures as cf
+    jobs = [(parse_mutant(p), pid) for p in sorted(glob.glob(os.path.join(MUT_DIR, pid, "*.patch")))]
+    jobs += [(m, pid) for m in neutral_patches(pid)]
+    if workers <= 1 or len(jobs) <= 1:
+        return [_run_job(j) for j in jobs]
+    with cf.ProcessPoolExecutor(max_workers=workers) as ex:
+        return list(ex.map(_run_job, jobs))
 
 
 if __name__ == "__main__":
